@@ -150,8 +150,16 @@ class Run:
 
     def _event(self, reg, kind, service, source):
         if reg in self.retired:
+            cur = getattr(self, "_unregistering", None)
+            if cur is not None and cur == (reg, "stopped", service.service_id, service.instance_id, service.major_version, service.minor_version, source) \
+                    and kind == "stopped":
+                # while the listener takes itself out from inside a 'stopped' report, the library tells it 'stopped' for that very
+                # service and source again: the stop is reported twice
+                self.fail("stop-reported-twice-to-a-listener-that-unregisters-inside-the-report", reg,
+                          (service.service_id, service.instance_id, service.major_version, service.minor_version), source, [])
             return
         if reg in self.armed:
+            self._unregistering = (reg, kind, service.service_id, service.instance_id, service.major_version, service.minor_version, source)
             # re-entrant call: the listener unregisters itself from inside its own notification.  What the *other*
             # listeners are told about this very event, and everything afterwards, must not suffer
             self.armed.discard(reg)
@@ -159,6 +167,7 @@ class Run:
             self.actual.discard(reg)
             self.stats["reentrant_unwatch_calls"] = self.stats.get("reentrant_unwatch_calls", 0) + 1
             self._unwatch(reg)
+            self._unregistering = None
             return
         svc = (service.service_id, service.instance_id, service.major_version, service.minor_version)
         self.events[reg].append((next(self.seq), self.h.loop.time(), kind, svc, SRC_NAME.get(source, source), self.period[reg]))
